@@ -122,3 +122,86 @@ func runGrayRows() {
 		})
 	chk.Sample("grayrow", grayCase{"grayrow", []int{255, 255, 0, 84, 0, 255, 255, 0, 0, 255, 255, 255}, "Gray", "global"})
 }
+
+// runValleyTies: rows whose histogram makes the two best valley candidates score EXACTLY the same.
+// The documented estimate scans from the white side and keeps the first maximum, so a tie goes to the
+// bucket nearer the white peak; bilevel rows and the short grey rows above never tie. For every pair
+// of peak buckets (dark d, light w, w - d >= 4) the best bucket x1 of the valley and the runner-up
+// x2 get n1 and n2 pixels and the tallest peak M pixels with g(x1)(M - n1) = g(x2)(M - n2),
+// g(x) = (x-d)^2 (w-x), found by a small search; the lower of the two buckets holds a flat run of
+// at least three pixels, whose interior is black under one candidate black point and white under
+// the other. Both polarities of which peak is the taller one.
+func runValleyTies() {
+	type tie struct{ d, w, x1, x2, M, n1, n2 int }
+	var ties []tie
+	g := func(d, w, x int) int { return (x - d) * (x - d) * (w - x) }
+	for d := 0; d < 28; d++ {
+		for w := d + 4; w < 32; w++ {
+			x1, x2, x3 := -1, -1, -1
+			for x := d + 1; x < w; x++ {
+				if x1 < 0 || g(d, w, x) > g(d, w, x1) {
+					x1 = x
+				}
+			}
+			for x := d + 1; x < w; x++ {
+				if x != x1 && (x2 < 0 || g(d, w, x) > g(d, w, x2)) {
+					x2 = x
+				}
+			}
+			for x := d + 1; x < w; x++ {
+				if x != x1 && x != x2 && (x3 < 0 || g(d, w, x) > g(d, w, x3)) {
+					x3 = x
+				}
+			}
+			g1, g2, g3 := g(d, w, x1), g(d, w, x2), 0
+			if x3 >= 0 {
+				g3 = g(d, w, x3)
+			}
+			found := false
+			for M := 8; M <= 900 && !found; M++ {
+				for n2 := 0; n2 <= 8 && !found; n2++ {
+					if x2 < x1 && n2 < 3 {
+						continue // the probe run lives in the lower bucket
+					}
+					if g2*(M-n2)%g1 != 0 {
+						continue
+					}
+					n1 := M - g2*(M-n2)/g1
+					if n1 < 0 || n1 > M/3 || (x1 < x2 && n1 < 3) || g2*(M-n2) <= g3*M {
+						continue
+					}
+					ties = append(ties, tie{d, w, x1, x2, M, n1, n2})
+					found = true
+				}
+			}
+		}
+	}
+	rng(fmt.Sprintf("binarisers: grey rows whose two best valley buckets tie exactly (%d (dark, light) peak pairs with a constructible tie; tallest peak dark or light; a flat probe run in the lower of the two buckets) x {global, hybrid}: GetBlackRow == sharpened-threshold model (the tie goes to the bucket nearer the white peak)", len(ties)), len(ties),
+		func(i int) string { return fmt.Sprint(ties[i]) },
+		func(l *mc.Local, i int) {
+			t := ties[i]
+			for _, tallLight := range []bool{true, false} {
+				tall, other := t.w, t.d
+				if !tallLight {
+					tall, other = t.d, t.w
+				}
+				var row []int
+				for k := 0; k < t.M-1; k++ {
+					row = append(row, other*8+3)
+				}
+				for k := 0; k < t.M-1; k++ { // the M-th pixel of the tallest peak closes the row
+					row = append(row, tall*8+3)
+				}
+				for k := 0; k < t.n1; k++ {
+					row = append(row, t.x1*8+4)
+				}
+				for k := 0; k < t.n2; k++ {
+					row = append(row, t.x2*8+4)
+				}
+				row = append(row, tall*8+3) // the probe runs are interior pixels
+				for _, bin := range []string{"global", "hybrid"} {
+					grayRowOne(l, grayCase{"grayrow", row, "Gray", bin})
+				}
+			}
+		})
+}
